@@ -32,7 +32,7 @@ F['C12']['legs'] = [dict(driver='channel', profile='close', prop='close', tv='Ch
                        mc_quick=[('ChannelMC', 'ChannelMC')], mc_thorough=[('ChannelMC', 'ChannelMC_big')])]
 fam({'C13': ('main', 'all')},
     driver='channel', tv='ChannelTV', mc_quick=[('ChannelMC', 'ChannelMC')], mc_thorough=[('ChannelMC', 'ChannelMC_big')],
-    n=(100, 300, 2000, 6000))
+    n=(100, 300, 2000, 6000), gen=dict(spec='ChannelGEN', cfg_quick='ChannelGEN_quick', cfg_thorough='ChannelGEN'))
 fam({'C15': ('main', 'all')},
     driver='notifier', tv='NotifierTV', mc_quick=[('NotifierMC', 'NotifierMC_quick')], mc_thorough=[('NotifierMC', 'NotifierMC_big')],
     n=(70, 120, 2000, 4000))
@@ -109,6 +109,33 @@ def conformance(ctx, f, mode, n, seed, name):
     handle_rejections(ctx, f, rej, st, mode, 'modeC' if mode == 'c' else 'modeF')
 
 
+def generated(ctx, f):
+    """specification -> implementation: TLC enumerates every behaviour (call sequence) of the generator spec up to its
+    depth; each is replayed against the real code under the controlled scheduler and validated like any other trace"""
+    g = f['gen']
+    cfg = g['cfg_quick'] if ctx.quick else g['cfg_thorough']
+    job, out = run_mc(ctx, g['spec'], cfg, workers=1, timeout=1800, name='gen_' + cfg)
+    progs = sorted(set(re.findall(r'<<"GEN", "(.*)">>', out)))
+    if not progs:
+        raise Infra(f'{g["spec"]}/{cfg} generated no behaviours')
+    total = len(progs)
+    if ctx.quick and len(progs) > 1200:
+        import random
+        random.Random(ctx.seed).shuffle(progs)
+        progs = sorted(progs[:1200])          # quick tier: a seeded sample; the thorough tier replays all of them
+    pf = f'{ctx.work}/gen_programs.ndjson'
+    with open(pf, 'w') as fh:
+        for p in progs:
+            fh.write(p.replace('\\"', '"') + '\n')
+    out_dir, st = run_harness(ctx, f['driver'], 'gen', mode='c', profile='gen', seed=ctx.seed, programs=pf, timeout=3000)
+    rej, nexec = validate(ctx, f['tv'], f'{out_dir}/trace.ndjson', st, f['prop'], 'tv_gen', parallel=8 if ctx.quick else 16)
+    ctx.conf.append(dict(mode='generated (TLC behaviours replayed)', generator=f'{g["spec"]}/{cfg}', behaviours_generated=total, behaviours_replayed=len(progs), executions=st['executions'],
+                         exhaustive_to_depth=(len(progs) == total), rejected=len(rej)))
+    ctx.distinct_nontrivial += len(progs)
+    ctx.samples += [dict(generated_program=json.loads(progs[len(progs) // 2].replace('\\"', '"')))]
+    handle_rejections(ctx, f, rej, st, 'c', 'gen')
+
+
 def run(ctx):
     f = F[ctx.pid]
     if 'custom' in f:
@@ -134,6 +161,8 @@ def run(ctx):
             conformance(ctx, leg, 'c', nc, ctx.seed, 'modec' + tag)
         if nf:
             conformance(ctx, leg, 'f', nf, ctx.seed + 1000, 'modef' + tag)
+    if 'gen' in f:
+        generated(ctx, f)
     if 'extra' in f:
         f['extra'](ctx, f)
 
